@@ -38,6 +38,14 @@ type fakeConn struct {
 	rdlSetAt             []time.Time
 	blockSetReadDeadline chan struct{} // if non-nil, SetReadDeadline blocks on it (schedule point)
 	scale                int           // if > 1, deadlines are shortened by this factor (the recorded history keeps the requested durations)
+	// gate: holds ONE SetReadDeadline call at its entry (armGate); it is let go as soon as another SetReadDeadline
+	// call has been applied, or after gateMax (the unchanged code holds its queue lock across the call, so nobody
+	// else can get there)
+	gateArmed, gateHeld bool
+	gateEntered         chan struct{}
+	gateRelease         chan struct{}
+	gateMax             time.Duration
+	errWithData         bool // the Read that returns the last queued bytes also returns the pending error (n > 0, err != nil), as crypto/tls does for close_notify right behind the data
 }
 
 func newFakeConn(id int, stream bool) *fakeConn {
@@ -66,6 +74,9 @@ func (c *fakeConn) Read(p []byte) (int, error) {
 			}
 			c.nReads++
 			c.cond.Broadcast()
+			if c.errWithData && len(c.rq) == 0 && c.rerr != nil {
+				return n, c.rerr
+			}
 			return n, nil
 		}
 		if c.rerr != nil {
@@ -116,11 +127,40 @@ func (c *fakeConn) Close() error {
 	return nil
 }
 
+// armGate makes the next SetReadDeadline call wait at its entry; the returned channel is closed when it got there.
+func (c *fakeConn) armGate(max time.Duration) <-chan struct{} {
+	c.mu.Lock()
+	defer c.mu.Unlock()
+	c.gateArmed, c.gateMax = true, max
+	c.gateEntered, c.gateRelease = make(chan struct{}), make(chan struct{})
+	return c.gateEntered
+}
+
 func (c *fakeConn) setRdl(t time.Time) {
 	if ch := c.blockSetReadDeadline; ch != nil {
 		<-ch
 	}
 	c.mu.Lock()
+	if c.gateArmed {
+		c.gateArmed, c.gateHeld = false, true
+		close(c.gateEntered)
+		rel, max := c.gateRelease, c.gateMax
+		c.mu.Unlock()
+		select {
+		case <-rel:
+		case <-time.After(max):
+		}
+		c.mu.Lock()
+		c.gateHeld = false
+	} else if c.gateHeld {
+		defer func(rel chan struct{}) {
+			select {
+			case <-rel:
+			default:
+				close(rel)
+			}
+		}(c.gateRelease)
+	}
 	now := time.Now()
 	if !t.IsZero() {
 		c.rdlHist = append(c.rdlHist, t.Sub(now))
